@@ -2762,6 +2762,9 @@ class Frame:
         new = New(ci, {}, line)
         # the constructor's own arguments (the class's public signature), for rules that read what was asked for
         new.ctor = (tuple(pos), dict(kw))
+        if ci.name in getattr(self.ctx, "track_new", ()):
+            # a rule asked under which conditions objects of this class are built
+            self.ev(p, "new", text=ci.name, target=new, args=tuple(pos) + tuple(Sym("kw:" + k, (v,)) for k, v in sorted(kw.items())), line=line)
         if r is None:
             return [(p, new)]
         owner, fn = r
